@@ -1163,7 +1163,12 @@ class Register(GenericRegister):
             if value._cohdlstd_notify_mode is _NotifyOnWrite:
                 value.notify()
 
-        result = await std.as_awaitable(self._on_write_, type(self)._from_bits_(data))
+        # only the strobed bytes are taken from the bus,
+        # the others keep the current content of the register
+        result = await std.as_awaitable(
+            self._on_write_,
+            type(self)._from_bits_(mask.apply(self._to_bits_(), data)),
+        )
 
         if result is None:
             # check that self contains no memory
